@@ -66,6 +66,33 @@ func expandC17(_ *testing.T, seed uint64, tier string) []*core.Plan {
 			p.Items = append(p.Items, core.Item{K: "fail", A: r.Pick(1, 2, 3, 4, 5, 6, 7, 8, 8), B: r.Range(1, 6)})
 		}
 	}
+	// small command queue (one run in four, drawn from a stream of its own so that
+	// the plans of the other runs stay what they were): a single caller, so that
+	// the order of issue is defined while calls block on a full queue, and bursts
+	// of publishes issued back to back from that caller
+	rq := core.NewRand(core.Derive(seed, "queue"))
+	if rq.Chance(1, 4) {
+		p.SetKnob("qs", rq.Pick(1, 2, 3))
+		p.SetKnob("actors", 1)
+		nb := rq.Range(1, 3)
+		for i := 0; i < nb; i++ {
+			pos := 0
+			for j, it := range p.Items {
+				if it.K == "start" {
+					pos = j + 1
+					break
+				}
+			}
+			pos += rq.Intn(len(p.Items) - pos + 1)
+			b := core.Item{K: "burst", A: rq.Range(3, 8), B: rq.Intn(3), D: 1000 + 100*i}
+			items := append([]core.Item{}, p.Items[:pos]...)
+			items = append(items, b)
+			if rq.Chance(1, 2) {
+				items = append(items, core.Item{K: "run", A: rq.Pick(5, 60, 1000, 6000, 12000)})
+			}
+			p.Items = append(items, p.Items[pos:]...)
+		}
+	}
 	return []*core.Plan{p}
 }
 
@@ -144,6 +171,9 @@ func runC17(t *testing.T, p *core.Plan) *core.Result {
 		w.Chunk = p.Knob("chunk", 0)
 		w.SPAfterFirst = p.Knob("sp", 0) == 1
 		svc := client.NewService()
+		if qs := p.Knob("qs", 0); qs > 0 {
+			svc = client.NewService(qs)
+		}
 		sess := &ProbeSession{W: w, Inner: session.NewMemorySession()}
 		svc.Session = sess
 		online, offline := 0, 0
@@ -249,7 +279,35 @@ func runC17(t *testing.T, p *core.Plan) *core.Result {
 						res.Violate("C17", "C17.stop-clears-futures", c.fut.kind+"-midway", fmt.Sprintf("the %s future #%d, whose command had reached the connection before Stop(true) was called, is still unresolved after Stop returned", c.fut.kind, c.fut.tag))
 					}
 				}
+			case "burst":
+				// it.A publishes issued back to back by one caller; with a full queue
+				// each call blocks (for at most QueueTimeout) before the next is made
+				var bs []*svcCmd
+				for i := 0; i < it.A; i++ {
+					q := it.B
+					if q == 2 {
+						q = i % 2
+					}
+					bs = append(bs, &svcCmd{kind: "pub", tag: it.D + i, qos: q, epoch: epoch})
+				}
+				if r.call("publish-burst", func() {
+					for _, cc := range bs {
+						cc.issued = rt.Tick()
+						f := svc.Publish("p/t", []byte(fmt.Sprintf("#%d#", cc.tag)), packet.QOS(cc.qos), false)
+						cc.fut = &futRec{kind: fmt.Sprintf("pub%d", cc.qos), tag: cc.tag, fut: f}
+						r.watch(cc.fut)
+					}
+				}) {
+					cmds = append(cmds, bs...)
+					res.Count("bursts", 1)
+				}
+				w.Settle()
 			case "sub", "unsub", "pub":
+				if p.Knob("qs", 0) > 0 && r.actors[0].busy {
+					// the only caller is still blocked on the full queue
+					res.Count("commands_skipped_caller_blocked", 1)
+					continue
+				}
 				c := &svcCmd{kind: it.K, tag: it.D, qos: it.A, epoch: epoch}
 				switch it.K {
 				case "sub":
@@ -293,6 +351,13 @@ func runC17(t *testing.T, p *core.Plan) *core.Result {
 		// healthy period: all remaining dials succeed, time passes
 		for d := w.dials + 1; d < w.dials+200; d++ {
 			delete(w.DialPlan, d)
+		}
+		if p.Knob("qs", 0) > 0 {
+			// a caller blocked on the full queue of a stopped service comes back
+			// after QueueTimeout per command
+			for i := 0; i < 40 && r.actors[0].busy; i++ {
+				w.Run(11 * time.Second)
+			}
 		}
 		if !running {
 			r.call("start", func() {
